@@ -93,10 +93,14 @@ def replay_case(arg):
             sc = [(e['name'], e['value']) for e in evs if e['e'] == 'SetConstant']
             run = [e for e in evs if e['e'] == 'Run']
             ctx = dict(with_sens=with_sens)
-            if len(ss) != 1 or ss[0]['values'] != exp_state:
-                fail('StateAssignmentOK', 'set_state', dict(ctx, got=[e['values'] for e in ss], expected=exp_state))
-            if sorted(sc) != sorted(exp_consts):
-                fail('StateAssignmentOK', 'set_constant', dict(ctx, got=sc, expected=exp_consts))
+            # what the solver HOLDS when it runs (initial state in its own order, every constant) -- not which setter calls
+            # were made: a model that skips a redundant hand-over is as good as one that repeats it
+            held_state = run[0]['state'] if run else None
+            held = sorted((k_, v_) for k_, v_ in (run[0]['consts'].items() if run else []) if k_ in dict(exp_consts))
+            if held_state != exp_state:
+                fail('StateAssignmentOK', 'set_state', dict(ctx, got=held_state, calls=[e['values'] for e in ss], expected=exp_state))
+            if held != sorted(exp_consts):
+                fail('StateAssignmentOK', 'set_constant', dict(ctx, got=held, calls=sc, expected=exp_consts))
             if len(run) != 1 or run[0]['log'] != list(dict.fromkeys(onames)) and run[0]['log'] != onames:
                 fail('OutputsOK', 'logged', dict(ctx, got=[e['log'] for e in run], expected=onames))
             if with_sens:
@@ -114,6 +118,20 @@ def replay_case(arg):
                 fail('Solution', 'shape', dict(ctx, got=list(out.shape), expected=list(exp_out.shape)))
             elif not interp.close(out, exp_out, rtol=1e-6, atol=1e-8):
                 fail('Solution', 'outputs', dict(ctx, got=out.tolist(), expected=exp_out.tolist()))
+        # ---- a COPY taken after the model has been used solves the same system at the same values (its solver is new: whatever
+        # the original remembers about its own solver does not describe the copy's)
+        if not fails:
+            with warnings.catch_warnings():
+                warnings.simplefilter('error', RuntimeWarning)
+                model.enable_sensitivities(False)
+                model.simulate(vfree.copy(), times.copy())
+                cp = model.copy()
+                out_c = cp.simulate(vfree.copy(), times.copy())
+                if free:
+                    model.enable_sensitivities(True)
+            cnt['evaluations'] = cnt.get('evaluations', 0) + 2
+            if not interp.close(np.asarray(out_c, dtype=float), exp_out, rtol=1e-6, atol=1e-8):
+                fail('Solution', 'outputs_of_a_copy_of_a_used_model', dict(got=np.asarray(out_c).tolist(), expected=exp_out.tolist()))
         # ---- a simulation is a function of its arguments: the same solver object, sensitivities still on, is used at another
         # point and then again at the first one (the solver keeps its state AND its state sensitivities from run to run
         # unless it is reset -- RefSim does, as myokit.Simulation does)
